@@ -552,7 +552,7 @@ def _gen_c18(rng, tier, i):
         if len(chs) == 2 and rng.random() < 0.3:
             chs = [",".join(chs)]
     plan = {"engine": "lssim", "tree": entries, "recs": recs, "cmd": cmd, "flags": flags, "chs": chs,
-            "src_alias": rng.random() < 0.25, "pre_dest": rng.randrange(2) if rng.random() < 0.2 else None,
+            "src_alias": rng.random() < 0.25, "pre_dest": rng.randrange(2) if rng.random() < 0.25 else None, "pre_dest_kind": rng.choice(["short", "same_size"]),
             "timeform": rng.choice(["z", "z", "naive", "+0530", "-0800", "unix"]), "end_relative": rng.random() < 0.2,
             "only": rng.random() < 0.2, "reverse": rng.random() < 0.3, "symbolic": cmd == "ln" and rng.random() < 0.5,
             "start": None, "end": None, "readdir_seed": rng.randrange(2**32)}
@@ -666,7 +666,15 @@ def _run_c18(plan, res, sc):
                     dp_ = os.path.join(dest, rel)
                     os.makedirs(os.path.dirname(dp_), exist_ok=True)
                     with open(dp_, "wb") as f_:
-                        f_.write(b"left over from an earlier transfer\n")
+                        if plan.get("pre_dest_kind") == "same_size":
+                            # same size as the source file, other bytes, newer (the usual look of a data file of the
+                            # same channel configuration recorded at another time)
+                            raw = bytearray(open(expected[rel], "rb").read())
+                            for j_ in range(len(raw)):
+                                raw[j_] ^= 0x5A
+                            f_.write(bytes(raw) if raw else b"")
+                        else:
+                            f_.write(b"left over from an earlier transfer\n")
                     planted.append(rel)
             if planted:
                 res.fault("destination_file_already_exists")
